@@ -648,6 +648,41 @@ func ruleStackIdx(c *Ctx) {
 						why = "compiled function's scalar count"
 						return true
 					}
+					// a count kept in a field of a small struct of the package: every value written to that field
+					// (in a composite literal or by assignment) must itself be such a count
+					if fv, ok := info.Uses[v.Sel].(*types.Var); ok && fv.IsField() && fv.Pkg() == ip.Types {
+						nW, allOK := 0, true
+						for _, fd2 := range c.allFuncDecls("interp") {
+							if fd2.Body == nil {
+								continue
+							}
+							ast.Inspect(fd2.Body, func(m ast.Node) bool {
+								switch w := m.(type) {
+								case *ast.KeyValueExpr:
+									if id, ok := w.Key.(*ast.Ident); ok && info.Uses[id] == types.Object(fv) {
+										nW++
+										if !classify(w.Value, depth+1) {
+											allOK = false
+										}
+									}
+								case *ast.AssignStmt:
+									for i, l := range w.Lhs {
+										if se, ok := l.(*ast.SelectorExpr); ok && info.Uses[se.Sel] == types.Object(fv) && i < len(w.Rhs) && len(w.Lhs) == len(w.Rhs) {
+											nW++
+											if !classify(w.Rhs[i], depth+1) {
+												allOK = false
+											}
+										}
+									}
+								}
+								return true
+							})
+						}
+						if nW > 0 && allOK {
+							why = "field that only ever holds a " + why
+							return true
+						}
+					}
 				case *ast.Ident:
 					if d, ok := defs[v.Name]; ok && d.idx < 0 {
 						return classify(d.e, depth+1)
